@@ -1,9 +1,274 @@
-/- C16 — executable model (core Lean only).  Stub. -/
+/-
+C16 — model of the curves (construct/curves/*.py) and of curve edges (items/edges/curve.py):
+
+* `DiscreteCurve`: `_check_param`, `get_point`, `discretize` (slice semantics, flip for reversed
+  parameters), `get_length` (polyline sum, 0 for a single point), `get_closest_param` (first minimum)
+* `InterpolatorBase.params` (normalised chord length), `LinearInterpolator` (scipy `interp1d`, linear),
+  `InterpolatedCurveBase.get_length` as repaired (polyline through the curve points at both parameters and
+  all interpolation points whose parameter lies strictly between them, in either order)
+* `FunctionCurveBase.discretize` (`np.linspace` of the parameter range, end point exact)
+* `OnCurveEdge.point_array` (`discretize(...)[1:-1]`), `SplineEdge.length`
+
+Generic over the point type `α` with a distance oracle `d : α → α → Rat` wherever no coordinates are needed.
+Spline interpolation and `scipy.optimize.minimize` are oracles of the implementation (not modelled).
+Core Lean only.
+-/
 import CBV.Model.Common
-import CBV.Gen.Tables
+import CBV.Model.C08
 
 namespace CBV.C16
 
-def handle (_op : String) (_args : List String) : Option String := none
+open CBV.C08 (Vec sqrtQ witOk)
+
+/-! ### polylines over a distance oracle -/
+
+/-- `functions.polyline_length` over a distance oracle: the sum of the distances of consecutive points -/
+def polyLenD {α : Type} (d : α → α → Rat) : List α → Rat
+  | p :: q :: rest => d p q + polyLenD d (q :: rest)
+  | _ => 0
+
+/-! ### DiscreteCurve -/
+
+/-- `CurveBase._check_param` with `bounds = (0, len - 1)` followed by `int(param)`; `none` = `ValueError` -/
+def checkParam (n : Nat) (p : Rat) : Option Nat :=
+  if 0 ≤ p ∧ p ≤ ((n : Int) - 1 : Int) then some p.floor.toNat else none
+
+/-- `array[i : j + 1]` -/
+def slice {α : Type} (pts : List α) (i j : Nat) : List α := (pts.drop i).take (j + 1 - i)
+
+/-- `DiscreteCurve.discretize(param_from, param_to)` -/
+def discretize {α : Type} (pts : List α) (pf pt : Rat) : Option (List α) := do
+  let i ← checkParam pts.length pf
+  let j ← checkParam pts.length pt
+  -- param_start = int(min(param_from, param_to)); param_end = int(max(param_from, param_to))
+  if pf > pt then some (slice pts j i).reverse else some (slice pts i j)
+
+/-- `DiscreteCurve.get_point(param)` -/
+def getPoint {α : Type} (pts : List α) (p : Rat) : Option α := do
+  let i ← checkParam pts.length p
+  pts[i]?
+
+/-- `DiscreteCurve.get_length(param_from, param_to)` (as repaired: a single point has length 0) -/
+def getLength {α : Type} (d : α → α → Rat) (pts : List α) (pf pt : Rat) : Option Rat :=
+  (discretize pts pf pt).map (polyLenD d)
+
+/-- index of the first minimum (`np.argmin`) -/
+def argminAux : List Rat → Nat → Nat → Rat → Nat
+  | [], _, best, _ => best
+  | x :: xs, i, best, bx => if x < bx then argminAux xs (i + 1) i x else argminAux xs (i + 1) best bx
+
+def argmin : List Rat → Nat
+  | [] => 0
+  | x :: xs => argminAux xs 1 0 x
+
+/-- `DiscreteCurve.get_closest_param(point)`: `dist` is the distance of each curve point to the query -/
+def closestParam {α : Type} (dist : α → Rat) (pts : List α) : Nat := argmin (pts.map dist)
+
+/-! ### function curves: `np.linspace` discretisation -/
+
+/-- `np.linspace(a, b, num=n)` (n ≥ 2): `a + i*step`, the end point is set to `b` exactly -/
+def linspace (a b : Rat) (n : Nat) : List Rat :=
+  ((List.range (n - 1)).map (fun (i : Nat) => a + (i : Rat) * ((b - a) / ((n : Rat) - 1)))) ++ [b]
+
+/-- `FunctionCurveBase.discretize(param_from, param_to, count)` for a curve function `f` -/
+def discretizeF {α : Type} (f : Rat → α) (a b : Rat) (n : Nat) : List α := (linspace a b n).map f
+
+/-! ### interpolated curves -/
+
+/-- running sums `[c + d0, c + d0 + d1, …]` (`np.cumsum`) -/
+def cumsumFrom (c : Rat) : List Rat → List Rat
+  | [] => []
+  | d :: ds => (c + d) :: cumsumFrom (c + d) ds
+
+def total (ds : List Rat) : Rat := ds.foldr (· + ·) 0
+
+/-- `InterpolatorBase.params` with `equalize=True`: `[0] ++ cumsum(lengths) / lengths[-1]`;
+    `ds` are the distances of consecutive interpolation points -/
+def knotParams (ds : List Rat) : List Rat := 0 :: (cumsumFrom 0 ds).map (· / total ds)
+
+/-- the parameters at which `InterpolatedCurveBase.get_length(a, b)` evaluates the curve (repaired code):
+    `[lower, *[t for t in params if lower < t < upper], upper]` -/
+def lengthParams (ts : List Rat) (a b : Rat) : List Rat :=
+  let lo := min a b
+  let hi := max a b
+  lo :: (ts.filter (fun t => decide (lo < t) && decide (t < hi))) ++ [hi]
+
+/-- `InterpolatedCurveBase.get_length` for a curve function `f` with knot parameters `ts`; `none` = out of bounds (0, 1) -/
+def getLengthI {α : Type} (d : α → α → Rat) (f : Rat → α) (ts : List Rat) (a b : Rat) : Option Rat :=
+  if 0 ≤ a ∧ a ≤ 1 ∧ 0 ≤ b ∧ b ≤ 1 then some (polyLenD d ((lengthParams ts a b).map f)) else none
+
+abbrev V := Vec Rat
+instance : Inhabited V := ⟨⟨0, 0, 0⟩⟩
+
+def lerpV (p q : V) (lam : Rat) : V :=
+  ⟨p.x + lam * (q.x - p.x), p.y + lam * (q.y - p.y), p.z + lam * (q.z - p.z)⟩
+
+/-- `scipy.interpolate.interp1d(params, points, axis=0)` (linear, `bounds_error=True`): `none` outside the knots -/
+def lerp : List Rat → List V → Rat → Option V
+  | t0 :: t1 :: ts, p0 :: p1 :: ps, t =>
+      if t0 ≤ t ∧ t ≤ t1 then some (lerpV p0 p1 ((t - t0) / (t1 - t0))) else lerp (t1 :: ts) (p1 :: ps) t
+  | _, _, _ => none
+
+/-! ### closest parameter of the linear interpolant (repaired code: exact projection to every segment) -/
+
+def dist2 (p q : V) : Rat := Vec.nsq (Vec.sub p q)
+
+/-- `np.clip(x, 0, 1)` -/
+def clip01 (x : Rat) : Rat := if x < 0 then 0 else if 1 < x then 1 else x
+
+/-- relative position on the segment `p0 → p1` of the projection of `q`, limited to the segment:
+    `clip(sum((point - start) * vector) / where(length > 0, length, 1), 0, 1)` -/
+def segRatio (p0 p1 q : V) : Rat :=
+  let v := Vec.sub p1 p0
+  let l := Vec.nsq v
+  clip01 (Vec.dot (Vec.sub q p0) v / (if 0 < l then l else 1))
+
+/-- squared distance of `q` to the segment `p0 → p1` -/
+def segDist2 (p0 p1 q : V) : Rat := dist2 (lerpV p0 p1 (segRatio p0 p1 q)) q
+
+/-- the segments of a polyline -/
+def segments (ps : List V) : List (V × V) := ps.zip ps.tail
+
+/-- index of the segment that is closest to `q` (`np.argmin`, first minimum) -/
+def closestSeg (ps : List V) (q : V) : Nat := argmin ((segments ps).map (fun s => segDist2 s.1 s.2 q))
+
+/-- `LinearInterpolatedCurve.get_closest_param(point)` -/
+def closestParamL (ts : List Rat) (ps : List V) (q : V) : Rat :=
+  let i := closestSeg ps q
+  let t0 := ts.getD i 0
+  let t1 := ts.getD (i + 1) 0
+  t0 + segRatio (ps.getD i default) (ps.getD (i + 1) default) q * (t1 - t0)
+
+/-! ### curve edges -/
+
+/-- `OnCurveEdge.point_array`: `data.discretize(param_start, param_end)[1:-1]` -/
+def pointArray {α : Type} (disc : List α) : List α := disc.tail.dropLast
+
+/-- `SplineEdge.length`: `DiscreteCurve([vertex_1, *point_array, vertex_2]).length` -/
+def splineEdgeLength {α : Type} (d : α → α → Rat) (v1 v2 : α) (pts : List α) : Rat :=
+  polyLenD d (v1 :: pts ++ [v2])
+
+/-! ### line protocol -/
+
+def parseVec? (s : String) : Option V := (parseV3? s).map (fun v => ⟨v.x, v.y, v.z⟩)
+def showVec (v : V) : String := s!"{showRat v.x},{showRat v.y},{showRat v.z}"
+def parseVecs? (s : String) : Option (List V) := (s.splitOn ";").mapM parseVec?
+
+/-- distance oracle of the driver: a double-precision square root of the exact squared distance (re-checked) -/
+def distQ (p q : V) : Rat := sqrtQ (dist2 p q)
+
+def distOk (eps : Rat) (l : List V) : Bool :=
+  (l.zip l.tail).all (fun (p, q) => witOk (distQ p q) (dist2 p q) eps)
+
+/-- `c16.disc <n> a b` → indices of `discretize(a, b)` of an n-point discrete curve | `reject` -/
+def handleDisc (args : List String) : Option String :=
+  match args with
+  | [n, a, b] => do
+      let n ← parseNat? n; let a ← parseRat? a; let b ← parseRat? b
+      some (match discretize (List.range n) a b with
+        | some l => showNatList l
+        | none => "reject")
+  | _ => none
+
+/-- `c16.dpoint <n> a` → index of `get_point(a)` | `reject` -/
+def handleDPoint (args : List String) : Option String :=
+  match args with
+  | [n, a] => do
+      let n ← parseNat? n; let a ← parseRat? a
+      some (match getPoint (List.range n) a with
+        | some i => toString i
+        | none => "reject")
+  | _ => none
+
+/-- `c16.dlen p0;p1;… a b eps` → `ok <length>` | `reject` | `badwit` -/
+def handleDLen (args : List String) : Option String :=
+  match args with
+  | [pts, a, b, eps] => do
+      let pts ← parseVecs? pts; let a ← parseRat? a; let b ← parseRat? b; let eps ← parseRat? eps
+      match discretize pts a b with
+      | none => some "reject"
+      | some l => if distOk eps l then some s!"ok {showRat (polyLenD distQ l)}" else some "badwit"
+  | _ => none
+
+/-- `c16.dclosest p0;p1;… q` → index of the closest point (squared distances, exact) -/
+def handleDClosest (args : List String) : Option String :=
+  match args with
+  | [pts, q] => do
+      let pts ← parseVecs? pts; let q ← parseVec? q
+      some (toString (closestParam (fun p => dist2 p q) pts))
+  | _ => none
+
+/-- knots of the linear interpolant through `pts` (chord-length parameters from the distance oracle) -/
+def knotsOf (pts : List V) : List Rat := knotParams ((pts.zip pts.tail).map (fun (p, q) => distQ p q))
+
+/-- `c16.ipoint p0;p1;… t eps` → `ok <point at t>` | `reject` | `badwit` (LinearInterpolatedCurve.get_point) -/
+def handleIPoint (args : List String) : Option String :=
+  match args with
+  | [pts, t, eps] => do
+      let pts ← parseVecs? pts; let t ← parseRat? t; let eps ← parseRat? eps
+      if !distOk eps pts then some "badwit"
+      else match lerp (knotsOf pts) pts t with
+        | some p => some s!"ok {showVec p}"
+        | none => some "reject"
+  | _ => none
+
+/-- `c16.ilen p0;p1;… a b eps` → `ok <length> <number of break points>` | `reject` | `badwit` (LinearInterpolatedCurve.get_length) -/
+def handleILen (args : List String) : Option String :=
+  match args with
+  | [pts, a, b, eps] => do
+      let pts ← parseVecs? pts; let a ← parseRat? a; let b ← parseRat? b; let eps ← parseRat? eps
+      if !distOk eps pts then some "badwit"
+      else
+        let ts := knotsOf pts
+        if ¬ (0 ≤ a ∧ a ≤ 1 ∧ 0 ≤ b ∧ b ≤ 1) then some "reject"
+        else
+          let ps := (lengthParams ts a b).mapM (lerp ts pts)
+          match ps with
+          | none => some "reject"
+          | some l =>
+              if distOk eps l then some s!"ok {showRat (polyLenD distQ l)} {l.length - 2}" else some "badwit"
+  | _ => none
+
+/-- `c16.lclosest p0;p1;… q eps` → `ok <segment> <parameter> <squared distance>` | `badwit`
+    (LinearInterpolatedCurve.get_closest_param; the parameter uses the chord-length knots of the distance oracle) -/
+def handleLClosest (args : List String) : Option String :=
+  match args with
+  | [pts, q, eps] => do
+      let pts ← parseVecs? pts; let q ← parseVec? q; let eps ← parseRat? eps
+      if pts.length < 2 then none
+      else if !distOk eps pts then some "badwit"
+      else
+        let i := closestSeg pts q
+        some s!"ok {i} {showRat (closestParamL (knotsOf pts) pts q)} {showRat (segDist2 (pts.getD i default) (pts.getD (i + 1) default) q)}"
+  | _ => none
+
+/-- `c16.linspace a b n` → the parameter list of `FunctionCurveBase.discretize` -/
+def handleLinspace (args : List String) : Option String :=
+  match args with
+  | [a, b, n] => do
+      let a ← parseRat? a; let b ← parseRat? b; let n ← parseNat? n
+      if n < 2 then none else some (showRatList (linspace a b n))
+  | _ => none
+
+/-- `c16.parray <k>` → indices kept by `point_array` of a k-point discretisation -/
+def handlePArray (args : List String) : Option String :=
+  match args with
+  | [k] => do
+      let k ← parseNat? k
+      some (showNatList (pointArray (List.range k)))
+  | _ => none
+
+def handle (op : String) (args : List String) : Option String :=
+  match op with
+  | "c16.disc" => handleDisc args
+  | "c16.dpoint" => handleDPoint args
+  | "c16.dlen" => handleDLen args
+  | "c16.dclosest" => handleDClosest args
+  | "c16.ipoint" => handleIPoint args
+  | "c16.ilen" => handleILen args
+  | "c16.lclosest" => handleLClosest args
+  | "c16.linspace" => handleLinspace args
+  | "c16.parray" => handlePArray args
+  | _ => none
 
 end CBV.C16
